@@ -109,6 +109,24 @@ def r2(ctx, facts, cfg):
     ok = bool(pops) and all(not any(t in try_stack(f, p) for t in ts) for p in pops)
     ctx.ob("C10.R2", "_process_lowest_timestamp_transit_event:pop-outside-try", ok,
            "pop_front lies outside (after) the per-event try", fn=f)
+    # R2c: the clean-up of the reused event runs on the error path too: it lies outside the try and every path to pop_front passes it
+    # (or finds no named-args vector to clean)
+    g = f.g
+    clr = [c for c in f.calls(r"std::vector<.*>::clear$") if any(x["k"] == "MemberExpr" and x.get("mname") == "named_args" for x in walk(call_obj(c)))]
+    cp_ = npos(f, clr)
+    nul = []
+    for bid, b in g.blocks.items():
+        c = g.term_cond(bid)
+        if c is None:
+            continue
+        core, neg = core_and_neg(c)
+        if any(x["k"] == "MemberExpr" and x.get("mname") == "named_args" for x in walk(core)) and not any(is_call(x, r"::clear$") for x in walk(core)):
+            nul.append((bid, "T" if neg else "F"))  # label of 'no named-args vector'
+    ok = bool(clr) and all(not any(t in try_stack(f, c) for t in ts) for c in clr) and \
+        not g.exists_path([g.entry_node], npos(f, pops), avoid_nodes=cp_, avoid_edges=[(b, l) for (b, l) in nul])
+    ctx.ob("C10.R2c", "_process_lowest_timestamp_transit_event:cleanup-on-every-path", ok,
+           "the named arguments of the reused transit event are cleared after the per-event try, on the error path as well: a statement "
+           "whose dispatch threw does not leave its named arguments to the next statement that reuses the slot", fn=f)
 
 
 def r3(ctx, facts, cfg):
